@@ -9,10 +9,10 @@ func init() {
 		}})
 	props = append(props, &Prop{ID: "C17", Harness: "copier", Level: "exploration",
 		QuickRuns: 8000, QuickChunk: 200, QuickWallS: 50, ThoroughRuns: 1000000, ThoroughChunk: 1000, ThoroughWallS: 600, MaxSteps: 100000,
-		Rule:         "C17: per run an output directory is generated on a real tmpfs (depth <= 3, <= 14 entries, files of 0..3 blocks under a block limit of 1-64 bytes, names with spaces, colons, backslashes, backslash-digit sequences and non-ASCII bytes; relative and absolute symlinks to files, directories, other links, into mounted collections, to secrets, to themselves, to ancestors, to paths outside every mount), 0-2 read-only collection mounts (generated manifests, beside or beneath the output path, optionally with a mount sub-path) and 0-2 secret mounts; the real copier runs while the simulator delays, reorders and (in half of the runs) fails the Keep writes issued by the per-directory flushes.",
+		Rule:         "C17: per run an output directory is generated on a real tmpfs (depth <= 3, <= 14 entries, files of 0..3 blocks under a block limit of 1-64 bytes, names with spaces, colons, backslashes, backslash-digit sequences and non-ASCII bytes; relative and absolute symlinks to files, directories, other links, into mounted collections, to secrets, to themselves, to ancestors, to paths outside every mount, to ordinary neighbours whose path merely starts with the path of a mount point or secret, and to outside paths that merely start with a mount's path), 0-2 read-only collection mounts (generated manifests, beside or beneath the output path, optionally with a mount sub-path) and 0-2 secret mounts; the real copier runs while the simulator delays, reorders and (in half of the runs) fails the Keep writes issued by the per-directory flushes.",
 		Real:         []string{"lib/crunchrun copier (Copy, walkMount, walkMountsBelow, walkHostFS, copyFile; map ranges sorted), sdk/go/manifest Extract, sdk/go/arvados collection filesystem (instrumented), host filesystem I/O (real)"},
 		Stub:         []string{"Keep (content-addressed map; PutB/ReadAt parked calls)", "API client (collection lookup by portable data hash)"},
-		ExpectProbes: []string{"copy-ok", "expected-error", "link-into-mount", "link-chain", "collection-mounted-below-output", "copy-failed-under-keep-faults"},
+		ExpectProbes: []string{"copy-ok", "expected-error", "link-into-mount", "link-chain", "collection-mounted-below-output", "copy-failed-under-keep-faults", "link-to-neighbour-of-mount"},
 		LevelText:    "seeded exploration of output trees x mounts x Keep-write schedules and failures; oracle = round-trip equality between the saved manifest (read by the independent spec-derived manifest reader over the Keep model) and an independent walk of the MODEL of the tree that applies the documented link rules; escaping or cyclic links must yield an error, secrets must be absent, mounted content must be referenced by existing blocks",
 		LevelNote:    "trusted: the expected-tree walker (written from the crunch-run documentation of output handling: links are resolved lexically, an empty directory may be carried by a zero-length .keep file), the reference manifest reader; symlinks whose path passes THROUGH another symlink, links to missing paths inside a mounted collection and writable collection mounts are not generated (outcome not specified by the property)",
 		Technique:    "deterministic simulation: real copier + instrumented collection filesystem with simulated Keep (delay/reorder/failure of flush writes) over real host-filesystem trees; round-trip oracle against an independent model walk",
